@@ -248,6 +248,18 @@ pub fn u2_state() -> impl Strategy<Value = U2State> {
         (1usize..7, 1usize..7, 0u32..3, any::<u32>()),
     )
         .prop_map(|((header, server_id, ip, game_port, query_port), (name, map, game_type, max_players), rules, players, (rd, pd, np_mode, np_big))| {
+            // the protocol has no sequence numbers: two byte-identical datagrams of one list cannot be told from one
+            // datagram delivered twice, so exact duplicates of a (key, value) pair are outside the domain
+            let mut rules = rules;
+            let mut seen: Vec<(UStr, UStr)> = Vec::new();
+            rules.retain(|kv| {
+                if seen.contains(kv) {
+                    false
+                } else {
+                    seen.push(kv.clone());
+                    true
+                }
+            });
             let n = players.len() as u32;
             let player_datagrams = pd;
             // num_players: exact, or larger than what is listed (the client then waits for silence)
